@@ -401,28 +401,56 @@ func optStr(v uint64, ok bool) string {
 // `<sub> new`.
 var tainted = map[string]bool{}
 
+var hung = map[string]bool{}
+
+const opTimeout = 20 * time.Second
+
 func exec(op string) vlib.Res {
 	f := strings.Fields(op)
 	if len(f) < 2 {
 		return vlib.Res{Impl: "bad-op"}
 	}
-	var res vlib.Res
-	switch f[0] {
-	case "umap":
-		res = execUmap(f[1], f[2:])
-	case "segmap":
-		res = execSegmap(f[1], f[2:])
-	case "cache":
-		res = execCache(f[1], f[2:])
-	case "lim":
-		res = execLim(f[1], f[2:])
-	case "conc":
+	if f[0] == "conc" {
 		return execConc(f[1], f[2:])
-	default:
+	}
+	if f[0] != "umap" && f[0] != "segmap" && f[0] != "cache" && f[0] != "lim" {
 		return vlib.Res{Impl: "bad-op"}
 	}
+	// Watchdog: a (mutated) table must never hang the driver. Each op runs in
+	// its own goroutine; one that does not return within opTimeout is reported
+	// as a hang, and the rest of that case is skipped (its locks may be held)
+	// until the next `<sub> new` builds fresh tables.
 	if f[1] == "new" {
+		hung[f[0]] = false
 		tainted[f[0]] = false
+	}
+	if hung[f[0]] {
+		return vlib.Res{Impl: "hung", Oracle: "-", Tags: "tainted"}
+	}
+	ch := make(chan vlib.Res, 1)
+	go func() {
+		defer func() {
+			if p := recover(); p != nil {
+				ch <- vlib.Res{Impl: "panic", Oracle: fail(f[0]+"/"+f[1]+"/panic", "%v", p), Tags: "panic"}
+			}
+		}()
+		switch f[0] {
+		case "umap":
+			ch <- execUmap(f[1], f[2:])
+		case "segmap":
+			ch <- execSegmap(f[1], f[2:])
+		case "cache":
+			ch <- execCache(f[1], f[2:])
+		default:
+			ch <- execLim(f[1], f[2:])
+		}
+	}()
+	var res vlib.Res
+	select {
+	case res = <-ch:
+	case <-time.After(opTimeout):
+		hung[f[0]] = true
+		return vlib.Res{Impl: "hung", Oracle: fail(f[0]+"/"+f[1]+"/hang", "the operation did not return within %v (deadlock or endless loop)", opTimeout), Tags: "hang"}
 	}
 	if tainted[f[0]] {
 		res.Oracle = "-"
@@ -849,13 +877,23 @@ func sweepOp(sub string, t table, ref map[uint64]uint64, pool map[uint64]bool, j
 	var visited []kv
 	w := "none"
 	i := 0
+	// the write is issued by ANOTHER goroutine while the callback waits for it:
+	// a sweep that is busy in one segment must not stand in the way of a writer
+	// to a different segment ("writers never wait on a global lock")
+	wdone := make(chan struct{})
+	blocked := false
 	t.ForEach(func(k2, v2 uint64) bool {
 		visited = append(visited, kv{k2, v2})
 		if i == j {
 			if sameSeg(k2) {
 				w = "skipped"
 			} else {
-				write()
+				go func() { defer close(wdone); write() }()
+				select {
+				case <-wdone:
+				case <-time.After(3 * time.Second):
+					blocked = true
+				}
 				w = "done"
 			}
 		}
@@ -863,6 +901,14 @@ func sweepOp(sub string, t table, ref map[uint64]uint64, pool map[uint64]bool, j
 		return true
 	})
 	or := ""
+	if blocked {
+		// the sweep is over: the writer can finish now (keeps the table and the reference in step)
+		select {
+		case <-wdone:
+		case <-time.After(10 * time.Second):
+		}
+		or = fail(sub+"/sweep/writer-blocked-by-iteration", "a write to key %d, in another segment than the one the sweep was visiting (entry #%d), could not proceed until the whole sweep had returned", k, j)
+	}
 	seen := map[uint64]int{}
 	for _, e := range visited {
 		seen[e.k]++
